@@ -93,7 +93,13 @@ class Driver(object):
     def _call(self, name, fn, *a, **kw):
         try:
             return fn(*a, **kw)
-        except REJECTION:
+        except REJECTION as e:
+            if name != "request_workflow_status":
+                # a rejection is the answer to a status *request*; out of any other call it is an escape
+                x = EngineException(name, e)
+                x.driver = self
+                x.args_repr = repr(a)[:200]
+                raise x
             raise
         except Exception as e:  # noqa
             x = EngineException(name, e)
